@@ -24,5 +24,7 @@ RespsC05small ==
      R(0, FALSE, 0, <<400>>, FALSE), R(3, FALSE, 0, <<40>>, FALSE), R(2, FALSE, 0, <<>>, FALSE),
      R(5, FALSE, 1, <<40>>, FALSE)}
 
+RespsC10 == {R(0, FALSE, 3, <<300, 300, 300, 300, 300, 300>>, TRUE)}
+
 RespsC19 == {R(0, FALSE, 1, <<8, 20>>, FALSE), R(3, FALSE, 0, <<40>>, FALSE)}
 =============================================================================
